@@ -155,6 +155,24 @@ def run(tier):
                 dg, case = ln.split("\t", 1)
                 c = json.loads(case)
                 ev.samples.append({"digest": dg, "case": {k: (v if len(v) < 80 else v[:80] + "...") for k, v in c.items()}})
+    # coverage audit: exported functions declared in the public headers vs symbols the workload object references
+    try:
+        import re as _re, glob as _glob
+        from vcommon import REPO, BUILD
+        libd = build_lib(cl[0])
+        rc_, out_ = sh(["nm", "-g", "--defined-only", os.path.join(libd, "src", "libascon_static.a")])
+        defined = set(l.split()[2] for l in out_.splitlines() if len(l.split()) == 3 and l.split()[1] == "T" and l.split()[2].startswith("ascon"))
+        declared = set()
+        for h in _glob.glob(os.path.join(REPO, "src", "ascon", "*.h")):
+            declared |= set(_re.findall(r"(ascon[a-z0-9_]*)\s*\(", open(h).read()))
+        public = defined & declared
+        objs = sorted(_glob.glob(os.path.join(BUILD, "obj", "workload_cpp-*.o")), key=os.path.getmtime)
+        rc_, out_ = sh(["nm", "-u", objs[-1]])
+        used = set(l.split()[-1] for l in out_.splitlines() if l.split())
+        ev.extra["public_c_functions"] = len(public)
+        ev.extra["public_c_functions_not_touched_by_the_workload"] = sorted(public - used)
+    except Exception as e:
+        ev.notes.append("coverage audit failed: %s" % e)
     ev.extra["transcript_entries_per_configuration"] = ncalls
     ev.extra["seeds"] = seeds
     shutil.rmtree(td, ignore_errors=True)
